@@ -76,7 +76,7 @@ impl Op {
     }
     /// is the operation replayed on the Lean model (correspondence), or checked by the oracles only?
     pub fn modelled(&self) -> bool {
-        !matches!(self, Op::Reserve(_) | Op::ReserveExact(_) | Op::ShrinkToFit | Op::ExtendWithinClone(..) | Op::DedupByKey | Op::Splice(..))
+        !matches!(self, Op::Splice(..))
     }
     /// does the operation take the vector by value?
     pub fn consumes(&self) -> bool {
